@@ -64,6 +64,10 @@ def encv(v):
             return {"t": "c", "v": "float:inf" if v > 0 else "float:-inf"}
         m = milli(v)
         return {"t": "f", "v": m} if m is not None else {"t": "c", "v": "float:other"}
+    if isinstance(v, dict):
+        return {"t": "d", "v": [[encv(k), encv(x)] for k, x in v.items()]}
+    if isinstance(v, (list, tuple)):
+        return {"t": "l", "v": [encv(x) for x in v]}
     return fu.enc(v)
 
 
@@ -71,9 +75,25 @@ def encv(v):
 # case generation
 # ---------------------------------------------------------------------------
 
-def case(f, inp, args=None, tmpl=None, pos=(), kw=None, name="", x=None, inp_enc=None):
+def case(f, inp, args=None, tmpl=None, pos=(), kw=None, name="", x=None, inp_enc=None, seq=None):
+    """seq: cases with the same seq id form a sequence that is run in this order in ONE process
+    (observe_all never splits it over two workers)."""
     return {"f": f, "name": name, "inp": inp, "args": dict(args or {}), "tmpl": tmpl or f"v|{f}",
-            "pos": list(pos), "kw": dict(kw or {}), "x": dict(x or {}), "inp_enc": inp_enc}
+            "pos": list(pos), "kw": dict(kw or {}), "x": dict(x or {}), "inp_enc": inp_enc, "seq": seq}
+
+
+def equal_value_families(tier):
+    """Families of values that compare (and hash) equal in Python but are different values with
+    different str() forms: n / n.0 (/ True, False for 1, 0); plus values without such a partner."""
+    ns = [0, 1, 2, -3, 7, 10, 42, 1000, -1] if tier == "quick" else list(range(-6, 13)) + [42, 100, 1000, 65536, -1000]
+    fams = []
+    for n in ns:
+        fam = [n, float(n)]
+        if n in (0, 1):
+            fam.append(bool(n))
+        fams.append(fam)
+    fams.append([None, 2.5, 0.125, -3.7, 1000.5, 3, 3.5])
+    return fams
 
 
 def strings(alpha, maxlen, minlen=0):
@@ -201,6 +221,24 @@ def gen_cases(tier, seed):
     for s in sample(utexts, 80 if quick else 800):
         add(case("urlencode", {"q": s}))
         add(case("urlencode", [(s, "v")]))
+    # ---- urlencode of values that are not strings ("converted to string"): ints, floats, bools, None as
+    # the value itself, as a mapping value, as a mapping key and in pair lists.  The members of a family
+    # compare equal (1 == 1.0 == True) but have different texts; they are visited one after the other in
+    # one process, in a seeded order, form by form, so that a result that is remembered per ==-equal
+    # value (or otherwise depends on what was quoted before) shows up at the next member.
+    for fi, fam in enumerate(equal_value_families(tier)):
+        seq = f"urlnum{fi}"
+        for rounds in range(1 if quick else 3):
+            for form in rnd.sample(["scalar", "value", "key", "pair", "mixed"], 5):
+                order = rnd.sample(fam, len(fam))
+                if form == "mixed":       # one pair list over the whole family: the sequence is inside ONE call
+                    ring = order + order[:1]
+                    add(case("urlencode", [(a, b) for a, b in zip(ring, ring[1:])], seq=seq))
+                    add(case("urlencode", [(a, "x") for a in order] + [("y", a) for a in reversed(order)], seq=seq))
+                    continue
+                for v in order:
+                    inp = {"scalar": v, "value": {"k": v}, "key": {v: "x y"}, "pair": [(v, v)]}[form]
+                    add(case("urlencode", inp, seq=seq))
     # ---- replace
     for s in sample(texts, 300 if quick else 2000) + words:
         for old, new in (("a", "xx"), ("a", ""), ("aa", "a"), (" ", "-"), ("B\n", "<"), ("-", "--")):
@@ -284,7 +322,8 @@ EXCLUDED = [
     "indent(first=true, blank=false) of a text whose first line is empty",
     "trim with an empty chars argument; replace with an empty search string; truncate with length < len(end)",
     "center of multi-line text",
-    "format beyond %s / %%; striptags with entities or comments; urlencode of bytes values",
+    "format beyond %s / %%; striptags with entities or comments; urlencode of bytes values, of -0.0, of floats that "
+    "are not exact in thousandths, of ints >= 2^31 and of objects (Decimal, Fraction) as values",
     "int of a decimal string with base != 10 (the documentation says the base is ignored for decimal numbers, "
     "the code parses in that base)",
     "int / float of undefined values",
@@ -345,7 +384,7 @@ def observe_case(c):
                 g = groups[key] = {"f": f, "name": c["name"], "inp": inp_e, "args": args_e, "out": out,
                                    "inp2": inp2, "args2": args2, "x": x_e, "modes": [],
                                    "shown": repr(c["inp"])[:60],
-                                   "how": {"tmpl": c["tmpl"], "pos": c["pos"], "kw": c["kw"]}}
+                                   "how": {"tmpl": c["tmpl"], "pos": c["pos"], "kw": c["kw"], "seq": c["seq"]}}
             g["modes"].append(f"{envk}/{via}")
     return list(groups.values()), nruns
 
@@ -366,7 +405,13 @@ def observe_all(cases):
     global _CASES
     _CASES = cases
     recs, nruns = [], 0
-    spans = [(i, min(i + 500, len(cases))) for i in range(0, len(cases), 500)]
+    spans, i = [], 0
+    while i < len(cases):
+        j = min(i + 500, len(cases))
+        while j < len(cases) and cases[j]["seq"] is not None and cases[j]["seq"] == cases[j - 1]["seq"]:
+            j += 1                       # a sequence stays in one worker process
+        spans.append((i, j))
+        i = j
     with ProcessPoolExecutor(max_workers=8) as ex:
         for r, n in ex.map(_observe_chunk, spans):
             recs += r
@@ -452,7 +497,17 @@ def replay(ck, rec):
     r = c0["record"]
     # the concrete input is regenerated from the deterministic case list (value classes such
     # as 10**400 or nan have no JSON form)
-    for c in gen_cases(ck.tier, ck.seed):
+    cases = gen_cases(ck.tier, ck.seed)
+    if r["how"].get("seq"):
+        # the observation is one step of a sequence run in one process: run the whole sequence again
+        recs = []
+        for c in cases:
+            if c["seq"] == r["how"]["seq"]:
+                recs += observe_case(c)[0]
+        if recs:
+            report(ck, fu.tlc_validate(ck, "StrFiltersTrace", recs, label="replay"))
+            return
+    for c in cases:
         if c["f"] == r["f"] and c["tmpl"] == r["how"]["tmpl"] and repr(c["inp"])[:60] == r["shown"] \
                 and {k: encv(v) for k, v in c["args"].items()} == r["args"] and c["name"] == r["name"]:
             recs, _ = observe_case(c)
